@@ -148,6 +148,7 @@ template <class T> struct Drv {
 
     Drv(fx::Ctx& fx_, const Job<T>& jj) : fx(fx_), j(jj), f(jj.fm), A0(jj.total), B0(jj.rn), B20(jj.total), exp(std::max(jj.total, jj.rn)), r0(jj.rn),
                                            pos(jj.rn), pos2(jj.rn) {
+        if (fx.seen && fx.seen->bucket_count() < FX_DISTINCT_CAP) fx.seen->reserve(FX_DISTINCT_CAP);   // no rehash pauses under the watchdog
         fx.arena[0].paint(); fx.arena[2].paint();
         ap = fx.arena[0].place_mid(j.sizeofA, 64); ad = (T*)ap;
         rp = fx.arena[2].place_mid(j.sizeofR, 64); rdat = (T*)rp;
